@@ -20,7 +20,7 @@ ASSUMPTIONS = ['an exception raised from the line tracer at line L is equivalent
                'for BaseException endings of process/remote kinds both the exception and None are accepted as error']
 SHRINK = 'none'
 TIME_BUDGET = {'quick': 170, 'thorough': 1700}
-REQUIRED = {'quick': {'landed': 150, 'land:except_handler': 3, 'land:finally': 5, 'land:result_send': 5, 'mode:kill': 30, 'mode:terminate': 100, 'remote_big_result_polled': 10, 'scenario:state_unrebuildable': 20},
+REQUIRED = {'quick': {'landed': 150, 'land:except_handler': 3, 'land:finally': 5, 'land:result_send': 5, 'mode:kill': 30, 'mode:terminate': 100, 'remote_big_result_polled': 10, 'scenario:state_unrebuildable': 20, 'unrebuildable_partial_result': 40},
             'thorough': {'landed': 1500, 'land:except_handler': 30, 'land:finally': 50, 'land:result_send': 50}}
 
 _ACC = ['is_alive', 'has_error', 'result', 'error', 'wait0', 'terminate0']
@@ -68,7 +68,11 @@ def strategy(tier):
     stu = st.fixed_dictionaries({
         'kind': st.sampled_from(['remote', 'process', 'p_remote', 'p_process', 'thread']), 'scenario': st.just('state_unrebuildable'),
         'inject': st.just({'mode': 'none'}), 'observe': st.lists(st.sampled_from(['has_error', 'result', 'error', 'is_alive', 'user_state', 'has_error']), min_size=4, max_size=8)})
-    return st.one_of(one, one, one, pers, pers, own, big, bigpoll, stu)
+    unp = st.fixed_dictionaries({
+        'kind': st.sampled_from(['p_remote', 'p_remote', 'p_process', 'p_thread']), 'scenario': st.just('persist'),
+        'items': st.builds(lambda a, b: a + ['UNPICKLABLE'] + b, st.lists(st.sampled_from([1, 2]), max_size=1), st.lists(st.sampled_from([3, 'UNPICKLABLE', 'POISON']), max_size=2)),
+        'close': st.booleans(), 'pipe': st.sampled_from(['default', 'default', 'supplied']), 'inject': st.just({'mode': 'none'}), 'observe': _observe})
+    return st.one_of(one, one, one, pers, pers, own, big, bigpoll, stu, unp)
 
 
 def exhaustive(tier, shard, nshards):
@@ -144,6 +148,10 @@ def expected(case):
             a_results = list(range(0, len(pre) + 1)) if mode != 'none' else None
         else:
             a_results = [len(pre)] if mode == 'none' else list(range(0, len(pre) + 1))
+        if 'UNPICKLABLE' in pre and kind == 'p_remote':
+            # a partial result that the parent cannot rebuild travels on the same connection as the final outcome: a parent that gives up
+            # on the stream has no exception to report (shape B with error None); what it may not do is stay without an outcome
+            errs.append(None)
     if mode == 'terminate':
         errs.append({'exc': 'WorkerTerminatedError', 'args': repr(('terminate called',))})
     if mode in ('kill', 'kill_external'):
@@ -176,6 +184,8 @@ def run_case(case, ctx):
         c['inject'] = inj
     obs = IC.execute(c, ctx)
     out.label('kind:' + kind, 'mode:' + mode, 'scenario:' + case['scenario'].split(':')[0])
+    if 'UNPICKLABLE' in (case.get('items') or []):
+        out.label('unrebuildable_partial_result')
     site = (mode + '@' + IC.region_of(obs.get('reached'))) if mode in ('terminate', 'kill') else mode + ':' + kind + ':' + case['scenario'].split(':')[-1 if case['scenario'].startswith('raise:') else 0]
     if obs['ctor'] != 'ok':
         out.obs = {'ctor': obs['ctor']}
